@@ -15,6 +15,9 @@ type Violation struct {
 	Class  string `json:"class"`            // coarse class, stable under minimisation (e.g. "unit-lost")
 	Sig    string `json:"sig,omitempty"`    // narrow behavioural signature, used to match known findings
 	Detail string `json:"detail,omitempty"` // human readable
+	// Scenario is a narrowed scenario reproducing exactly this violation (enumerating engines
+	// execute many sub-cases per scenario); nil = the executed scenario itself.
+	Scenario any `json:"-"`
 }
 
 func (v Violation) Key() string { return v.Prop + "/" + v.Class + "/" + v.Sig }
@@ -22,9 +25,6 @@ func (v Violation) Key() string { return v.Prop + "/" + v.Class + "/" + v.Sig }
 // Outcome is what one executed scenario reports.
 type Outcome struct {
 	Violations []Violation
-	// Fail is a narrowed scenario reproducing Violations[0] (enumerating engines execute many
-	// sub-cases per scenario; Fail pins the one that failed). nil = the scenario itself.
-	Fail       any
 	Evals      int64            // sub-executions performed
 	Fired      map[string]int64 // fault kinds that actually landed inside in-flight state
 	Probes     map[string]int64 // reach probes
@@ -40,6 +40,15 @@ func NewOutcome() *Outcome {
 
 func (o *Outcome) Violate(prop, class, sig, format string, a ...any) {
 	o.Violations = append(o.Violations, Violation{Prop: prop, Class: class, Sig: sig, Detail: fmt.Sprintf(format, a...)})
+}
+
+// Narrow attaches a narrowed scenario to every violation recorded since index from.
+func (o *Outcome) Narrow(from int, sc any) {
+	for i := from; i < len(o.Violations); i++ {
+		if o.Violations[i].Scenario == nil {
+			o.Violations[i].Scenario = sc
+		}
+	}
 }
 
 func (o *Outcome) Fire(kind string)  { o.Fired[kind]++ }
